@@ -84,6 +84,11 @@ def jobs_for(tier):
             for ne in ((False, True) if ('enum' in t['feats'] and tier == 'thorough') else (False,)):
                 jobs.append(dict(id='%s/indent=%s%s' % (t['id'], ind, '/numeric' if ne else ''), template=t['id'],
                                  indent=ind, numeric_enums=ne, tier=tier, W=256, kind='readback'))
+    from checks import C02_real
+    for layout in ('fixed', 'exp'):
+        for ind in INDENTS[tier][:2]:
+            jobs.append(dict(id='kernel/gser-real/%s/indent=%s' % (layout, ind), kind='gser-real', layout=layout, part=0,
+                             parts=1, tier=tier, W=384, template='real', indent=ind, numeric_enums=False))
     for i in PAIR_IDS[tier]:
         for ind in ((None,) if tier == 'quick' else (None, 2)):
             jobs.append(dict(id='pair/%s/indent=%s' % (i, ind), template=i, indent=ind, numeric_enums=False,
@@ -159,6 +164,8 @@ def make_harness(job):
     tpl = cj.tpl
     if job['kind'] == 'pair':
         return make_pair_harness(job, cj)
+    if job['kind'] == 'gser-real':
+        return make_real_harness(job, cj)
 
     def harness(ctx):
         cj.cands.attach(ctx)
@@ -253,6 +260,65 @@ def expand_tokens(ctx, items):
 
 def _has_token(items):
     return any(not isinstance(x, str) and x[0] == 'int' for x in items)
+
+
+def make_real_harness(job, cj):
+    """GSER REAL with symbolic decimal digits (contract of repr(float): pyfront/dec.py)"""
+    from checks.C02_real import shapes, Installed
+    from pyfront import dec as D
+    fixed, exp = shapes(job['tier'])
+    table = fixed if job['layout'] == 'fixed' else exp
+    tpl = cj.tpl
+
+    def harness(ctx):
+        with shimmed(MODS), Installed(C.gser, float=D.float_shim, math=D.math_shim):
+            k = ctx.choose('shape', len(table))
+            negative = ctx.flag('negative')
+            if job['layout'] == 'fixed':
+                ni, nf = table[k]
+                v = D.make_real(ctx, 'r', 'fixed', ni, nf, negative=negative)
+            else:
+                nf, ne, eneg = table[k]
+                v = D.make_real(ctx, 'r', 'exp', 1, nf, ne=ne, negative=negative, exp_negative=eneg)
+            if negative:
+                # RFC 3641 has no notation for minus zero: outside "representable in the syntax"
+                ctx.eng.assume(z3.Not(v.is_zero()))
+            ctx.describe = lambda m: {'float': repr(v.concretize(m))}
+            try:
+                enc = cj.ct.encode(v, indent=job['indent'])
+            except Inconclusive:
+                raise
+            except Exception as e:
+                ctx.violation('encode-foreign-exception', repr(e)[:200])
+                return
+            items = text_items(bytes(enc).decode('utf-8'))
+            m = ctx.eng.get_model()
+            cv = v.concretize(m)
+            want = rfc3641.render(items, m)
+            with unshimmed():
+                got = cj.spec.encode(tpl['type'], cv, indent=job['indent']).decode('utf-8')
+            # the symbolic digit strings over-approximate repr(): a model need not be the shortest
+            # text of its double, so the two texts are compared by the value they denote
+            def val(t):
+                t = t.split('::=')[1].strip()
+                return float(t.replace('E', 'e')) if t != '0' else 0.0
+            if got.split('::=')[0] != want.split('::=')[0] or val(got) != val(want) or val(got) != cv:
+                raise HarnessError('xval mismatch for %r: symbolic %r, concrete %r' % (cv, want, got))
+            ctx.res.xval += 1
+            rd = rfc3641.Reader(items, cj.gen.spec)
+            try:
+                back = rd.assignment(tpl['type'], cj.td, tpl['module'])
+            except rfc3641.ParseError as e:
+                ctx.violation('text-not-well-formed', str(e)[:200])
+                return
+            if isinstance(back, float):
+                if back != 0.0:
+                    raise HarnessError('reader returned a concrete float for symbolic text')
+                back = D.SymDec(False, [0], 0)      # the text "0"
+            if ctx.prove('read-back-equals-value', D.same_double(v.decimal(), back)):
+                ctx.sample({'job': job['id'], 'value': repr(cv), 'text': got})
+                ctx.note('real-read-back-proved')
+    return harness
 
 
 def _items_equal(a, b):
@@ -369,6 +435,8 @@ def replay(v):
     eq = Equiv(gen, job['W'])
     td = parsed[tpl['module']]['types'][tpl['type']]
     inp = unjson(v['witness'].get('inputs'))
+    if job['kind'] == 'gser-real':
+        inp = float(v['witness']['inputs']['float'])
     eng = Engine(W=job['W'])
     Engine.cur = eng
     try:
